@@ -1,4 +1,5 @@
 import PV.Model.Stats
+import PV.Props.C04
 /-!
 # C17 — reported size statistics describe the emitted program
 
